@@ -752,6 +752,13 @@ def decide(pid, tier, seed):
         mt, tfails = mt_stage(rng)
         for (cfg, err, bad) in tfails[:10]:
             batch_fail.append(("threads", cfg, err, bad))
+    cz = None
+    if tier == "thorough" and pid == "C01":
+        # model self-test for DESIGN 4 (oblivious scripts cover adaptive children because the model is causal): support, no crate involved
+        import causality
+        cz, zfails = causality.run(int(os.environ.get("VERIF_SEED", "1")), 20000)
+        for (cfg, err, bad) in zfails:
+            batch_fail.append(("model-causality", cfg, err, bad))
     miri = None
     if tier == "thorough" and pid == "C02":
         miri, mfails = miri_stage(rng)
@@ -855,7 +862,7 @@ def decide(pid, tier, seed):
                   coq_predicate_evaluations_on_impl_traces=stats.get("coq_monitor_evals", 0),
                   monitor_errors=stats.get("monitor_errors", [])[:5],
                   traces_validated_against_impl=stats["evaluations"], correspondence_differences=len(diffs), monitor_failures=len(monfails),
-                  known_findings_matched=len(known_hits), exhaustive=False, **({"miri": miri} if miri else {}), **({"real_threads": mt} if mt else {})),
+                  known_findings_matched=len(known_hits), exhaustive=False, **({"miri": miri} if miri else {}), **({"real_threads": mt} if mt else {}), **({"model_causality": cz} if cz else {})),
               assumptions=["the model predicts the implementation on the cases that were not run",
                            "std::sync::Mutex / Arc / Waker behave as specified; wakes from other threads land in the windows where the readiness lock is free",
                            "no usize overflow"])
